@@ -3,7 +3,10 @@
 Same generator as C10 (only 4-byte aligned payloads: DESIGN S-note). Oracle, per basic block reported by androguard:
   * {child block start} == the reference successor set of the block's last instruction (vf.model.cfg: fall-through,
     not-taken side of if/switch, jump target, every case target, nothing after return*/throw, no fall-through after
-    goto), restricted to offsets inside the method;
+    goto), restricted to offsets inside the method: a branch / goto / switch-case target before offset 0, at the end
+    of the insns array or beyond it (about every 5th generated method has one: 1..200 units before the start, exactly
+    at the end, 1..200 units past it, +-0x7fff/-0x8000, +-0x7fffffff/-0x80000000 for goto/32 and switch cases)
+    contributes no successor, so the target appears in no childs and in no fathers entry;
   * every childs triple is (offset of the last instruction, target offset, the block that starts at the target);
   * fathers is the inverse relation: block B lists F as father iff F lists B as child, and each father triple
     (target, offset of F's last instruction, F) has its mirrored child triple in F.
@@ -14,7 +17,7 @@ from vf.checks import cfg_common as K
 
 PROPERTY = 'C11'
 LEVEL = 'exploration'
-RULE = ('generated: batches of 1-6 abstract methods as in C10 incl. branches to offset 0, if whose target is its fall-through, goto to itself (goto/32 +0), duplicate switch targets, empty switches, two switches sharing one payload; shipped: as in C10. non-trivial = the method has a conditional branch and (a switch or a backward edge); distinct = (code bytes, tries)')
+RULE = ('generated: batches of 1-6 abstract methods as in C10 incl. branches to offset 0, if whose target is its fall-through, goto to itself (goto/32 +0), duplicate switch targets, empty switches, two switches sharing one payload, and (every 4th method, every 4th target there) if/goto/switch-case targets outside the method: before offset 0, exactly at the end, beyond the end, +-0x7fff, +-0x7fffffff (labels oob:*); never targets inside the method that are not instruction starts; shipped: as in C10. non-trivial = the method has a conditional branch and (a switch or a backward edge); distinct = (code bytes, tries)')
 ASSUMPTIONS = [
     'vf/gen/dalvik_spec.py, vf/gen/asm.py, vf/gen/dexgen.py and vf/gen/cfggen.py produce well-formed code items (typed from the Dalvik/DEX specifications; the length table tiles every shipped code item)',
     'reference semantics in vf/model/cfg.py: branch and switch-target offsets are relative to the branching instruction (code units), switch falls through, goto/return*/throw do not; a try covers the instructions whose address lies in [start_addr, start_addr+insn_count)',
